@@ -12,7 +12,8 @@ import traceback
 
 VERIF = os.path.dirname(os.path.dirname(os.path.abspath(__file__)))
 LEAN_DIR = os.path.join(VERIF, "lean")
-EVIDENCE_DIR = os.path.join(VERIF, "evidence")
+# runs against deliberately modified trees (tools/try_seeded.sh, catch_matrix.sh) must not overwrite the evidence
+EVIDENCE_DIR = os.environ.get("VERIF_EVIDENCE_DIR") or os.path.join(VERIF, "evidence")
 REPLAY_DIR = os.path.join(VERIF, "replays")
 KNOWN_FINDINGS = os.path.join(VERIF, "known_findings.json")
 
